@@ -93,7 +93,16 @@ def run(mode, defp, p):
             except Exception:
                 exp = None
             g = got.tolist() if hasattr(got, "tolist") else got
-            return {"kind": "return", "value": {"ok": exp is not None and g == [exp], "got": g, "expected": exp}}
+            ok = exp is not None and g == [exp]
+            if ok and claimed:
+                # the request must not have rewritten what the holder keeps for the pieces
+                from openfisca_core import periods
+                for s in pieces(defp, p)[:40]:
+                    piece = periods.Period((periods.DateUnit(defp), periods.Instant(tuple(s)), 1))
+                    again = sim.calculate("v", piece).tolist()
+                    if again != [fval(defp, *s)]:
+                        return {"kind": "return", "value": {"ok": False, "got": f"{defp} {s} reads {again} after the ADD request", "expected": [fval(defp, *s)]}}
+            return {"kind": "return", "value": {"ok": ok, "got": g, "expected": exp}}
         if mode == "divide":
             got = sim.calculate_divide("v", period)
             exp = None
